@@ -242,23 +242,31 @@ impl<'a> ExecutionEngine<'a> {
             let line_value = Value::String(line);
 
             if let Some(joined_table_data) = self.joined_table_data.as_ref() {
+                // Update the aggregates once per joined row, then build one result table for the line
+                // (building it per joined row would stack the intermediate tables in the output)
                 let aggregate_execution_engine = &mut self.aggregate_execution_engine;
-                Ok(
-                    execute_join(
-                        table_definition,
-                        &row,
-                        &line_value,
-                        aggregate_statement.join.as_ref().unwrap(),
-                        joined_table_data,
-                        false,
-                        |column_provider| {
-                            aggregate_execution_engine.execute(
-                                aggregate_statement,
-                                column_provider
-                            )
+                let mut any_updated = false;
+                let mut output = execute_join(
+                    table_definition,
+                    &row,
+                    &line_value,
+                    aggregate_statement.join.as_ref().unwrap(),
+                    joined_table_data,
+                    false,
+                    |column_provider| {
+                        if aggregate_execution_engine.execute_update(aggregate_statement, column_provider)? {
+                            any_updated = true;
                         }
-                    )?
-                )
+
+                        Ok(None)
+                    }
+                )?;
+
+                if any_updated {
+                    output.result_row = Some(aggregate_execution_engine.execute_result(aggregate_statement)?);
+                }
+
+                Ok(output)
             } else {
                 let aggregate_execution_engine = &mut self.aggregate_execution_engine;
                 Ok(
